@@ -314,6 +314,9 @@ def memo_inputs(seed=0, tier='quick'):
     for m_prec in [-1] + list(range(0, top)):
         for prec in range(0, top + 20):
             yield dict(prec=prec, kwargs={}, m_prec=m_prec, m_val=(cfix(m_prec) if m_prec >= 0 else None))
+            if prec > m_prec:
+                # the same request with the fixed-point routine aborted by an exception
+                yield dict(prec=prec, kwargs={}, m_prec=m_prec, m_val=(cfix(m_prec) if m_prec >= 0 else None), _callee_raises=True)
 
 
 def const_inputs(seed=0, tier='quick'):
@@ -376,3 +379,21 @@ def mpi1_inputs(seed=0, tier='quick'):
 
 
 GENS.update({'mpi2_inputs': mpi2_inputs, 'mpi1_inputs': mpi1_inputs})
+
+
+def sqrt_inputs(seed=0, tier='quick'):
+    rng = random.Random(seed + 9)
+    xs = [fzero, finf, fnan]
+    for man in list(range(1, 200, 2)) + [(1 << 60) + 1, (1 << 107) - 1, 3 ** 40, (3 ** 20) ** 2, ((1 << 30) + 1) ** 2]:
+        m = man
+        while m % 2 == 0:
+            m //= 2
+        for e in (-7, -2, -1, 0, 1, 4, 9):
+            xs.append(mk(0, m, e))
+    for x in xs:
+        for prec in (1, 2, 3, 5, 10, 24, 53):
+            for rnd in RND5:
+                yield dict(s=x, prec=prec, rnd=rnd)
+
+
+GENS['sqrt_inputs'] = sqrt_inputs
